@@ -391,6 +391,10 @@ func (re *Regexp) findAllRunesIndex(runner *Runner, input []rune, startAt, n int
 			flat = append(flat, start, end)
 			out = append(out, flat[len(flat)-2:len(flat):len(flat)])
 			prevEnd = m.RuneIndex + m.RuneLength
+			if re.RightToLeft() {
+				// scanning leftwards, the previous match ends (and an empty match abuts it) at its start
+				prevEnd = m.RuneIndex
+			}
 			if n > 0 {
 				n--
 			}
